@@ -135,9 +135,71 @@ fn kx_pair(i: &Input) -> Outcome {
     eq("client tx vs libsodium", &wtx, &ctx_)
 }
 
+/// Object API (`dryoc::kx::Session`, `KeyPair::kx_new_*_session`): for ANY peer public key encoding (on the curve, on
+/// its twist, non-canonical, high bit set, small order) the Ok/Err decision and the session keys equal libsodium's
+/// crypto_kx_{client,server}_session_keys.  sk = this side's secret key, peer = the other side's public key.
+fn kx_object(i: &Input) -> Outcome {
+    use dryoc::kx::{KeyPair, PublicKey, SecretKey, Session, SessionKey};
+    let (sk, peer) = (i.arr::<32>("sk"), i.arr::<32>("peer"));
+    let pk = so::scalarmult_base(&sk);
+    let kp = KeyPair {
+        public_key: PublicKey::from(pk),
+        secret_key: SecretKey::from(sk),
+    };
+    let peer_pk = PublicKey::from(peer);
+
+    fn judge(what: &str, oracle: &Option<([u8; 32], [u8; 32])>, got: Result<(Vec<u8>, Vec<u8>), String>) -> Outcome {
+        match (oracle, got) {
+            (Some((wrx, wtx)), Ok((rx, tx))) => {
+                eq(&format!("{} rx", what), wrx, &rx)?;
+                eq(&format!("{} tx", what), wtx, &tx)
+            }
+            (Some((wrx, wtx)), Err(e)) => fail(
+                format!("Ok(rx={}, tx={})", hex(wrx), hex(wtx)),
+                format!("Err({})", e),
+                format!("{} refuses a peer public key for which libsodium derives session keys", what),
+            ),
+            (None, Err(_)) => Ok(()),
+            (None, Ok((rx, tx))) => fail(
+                "Err",
+                format!("Ok(rx={}, tx={})", hex(&rx), hex(&tx)),
+                format!("{} accepts a peer key that libsodium refuses (all-zero shared secret)", what),
+            ),
+        }
+    }
+    // (a macro, not a generic fn: the Zeroize bound of Session<K> cannot be named from this crate)
+    macro_rules! parts {
+        ($r:expr) => {
+            $r.map(|s| (s.rx_as_slice().to_vec(), s.tx_as_slice().to_vec())).map_err(|e| e.to_string())
+        };
+    }
+
+    let oc = so::kx_client(&pk, &sk, &peer);
+    judge("Session::new_client_with_defaults", &oc, parts!(Session::new_client_with_defaults(&kp, &peer_pk)))?;
+    judge("Session::<Vec<u8>>::new_client", &oc, parts!(Session::<Vec<u8>>::new_client(&kp, &peer_pk)))?;
+    judge("KeyPair::kx_new_client_session", &oc, parts!(kp.kx_new_client_session::<SessionKey>(&peer_pk)))?;
+    let os = so::kx_server(&pk, &sk, &peer);
+    judge("Session::new_server_with_defaults", &os, parts!(Session::new_server_with_defaults(&kp, &peer_pk)))?;
+    judge("Session::<Vec<u8>>::new_server", &os, parts!(Session::<Vec<u8>>::new_server(&kp, &peer_pk)))?;
+    judge("KeyPair::kx_new_server_session", &os, parts!(kp.kx_new_server_session::<SessionKey>(&peer_pk)))?;
+    Ok(())
+}
+
 pub const C05: Registry = &[
     ("scalarmult_random_point", scalarmult),
     ("scalarmult_special_point", scalarmult),
+    // encodings that differ from a special encoding (base point, small-order list, p-1.., small u) only in the last
+    // byte, in high bits or in one other byte: a shortcut keyed on a partial comparison shows here
+    ("scalarmult_near_special_point", scalarmult),
+    ("box_beforenm_near_special_peer_key", beforenm),
+    ("kx_client_near_special_peer_key", kx_client),
+    ("kx_server_near_special_peer_key", kx_server),
+    // the object API on every class of peer key
+    ("kx_object_honest_peer_key", kx_object),
+    ("kx_object_random_peer_key", kx_object),
+    ("kx_object_small_u_peer_key", kx_object),
+    ("kx_object_special_peer_key", kx_object),
+    ("kx_object_near_special_peer_key", kx_object),
     ("scalarmult_base", scalarmult_base),
     ("dh_commutes", dh_commutes),
     ("box_beforenm", beforenm),
@@ -198,6 +260,53 @@ pub fn special_points() -> Vec<[u8; 32]> {
         })
         .collect();
     v.extend(hi);
+    v
+}
+
+/// Encodings that differ from one of the special encodings only in the last byte (every single bit of it, and a few
+/// whole-byte values), in the high bits of byte 30, or in one low bit elsewhere -- none of them is itself in
+/// `special_points()`.  They are ordinary points (on the curve or on its twist) for X25519; only a shortcut that
+/// recognises a special encoding by a partial comparison treats them differently.
+pub fn near_special_points() -> Vec<[u8; 32]> {
+    let special = special_points();
+    let mut out: Vec<[u8; 32]> = Vec::new();
+    let push = |q: [u8; 32], out: &mut Vec<[u8; 32]>| {
+        if !special.contains(&q) && !out.contains(&q) {
+            out.push(q);
+        }
+    };
+    // the first half of special_points() is the base list, the second half its high-bit variants
+    for p in &special[..special.len() / 2] {
+        for bit in 0..7 {
+            let mut q = *p;
+            q[31] ^= 1 << bit;
+            push(q, &mut out);
+        }
+        for v in [0x01u8, 0x23, 0x40, 0x7f, 0x81, 0xc0] {
+            let mut q = *p;
+            q[31] = v;
+            push(q, &mut out);
+        }
+        for (at, mask) in [(30usize, 0x80u8), (30, 0x01), (16, 0x01), (1, 0x01), (0, 0x80)] {
+            let mut q = *p;
+            q[at] ^= mask;
+            push(q, &mut out);
+        }
+    }
+    out
+}
+
+/// u = 0..=40 with the top bit clear / set (small u on and off the curve).
+fn small_u_points() -> Vec<[u8; 32]> {
+    let mut v = Vec::new();
+    for u in 0..=40u8 {
+        for top in [0u8, 0x80] {
+            let mut p = [0u8; 32];
+            p[0] = u;
+            p[31] = top;
+            v.push(p);
+        }
+    }
     v
 }
 
@@ -264,6 +373,47 @@ pub fn c05(ctx: &mut Ctx) -> Search {
         ctx.run("box_beforenm_special_peer_key", Input::new().b("pk", p).b("sk", &sk))?;
         ctx.run("kx_client_weak_peer_key", Input::new().b("client_sk", &sk).b("server_pk", p))?;
         ctx.run("kx_server_weak_peer_key", Input::new().b("server_sk", &sk).b("client_pk", p))?;
+    }
+
+    // neighbours of the special encodings (last byte / high bits / one other bit changed): every scalar class for the
+    // base point's neighbours, a few scalars for the rest; then as peer keys of beforenm and kx
+    let near = near_special_points();
+    let nsc = if t { scalars.len() } else { 4 };
+    for p in &near {
+        let base_like = p[0] == 9 && p[1..31].iter().all(|b| *b == 0);
+        let take = if base_like { scalars.len() } else { nsc };
+        // the random scalars are at the end of the list: take from the end
+        for n in scalars.iter().rev().take(take) {
+            ctx.run("scalarmult_near_special_point", Input::new().b("n", n).b("p", p))?;
+        }
+    }
+    for p in &near {
+        ctx.run("box_beforenm_near_special_peer_key", Input::new().b("pk", p).b("sk", &sk))?;
+        ctx.run("kx_client_near_special_peer_key", Input::new().b("client_sk", &sk).b("server_pk", p))?;
+        ctx.run("kx_server_near_special_peer_key", Input::new().b("server_sk", &sk).b("client_pk", p))?;
+    }
+
+    // object API (kx::Session / KeyPair::kx_new_*_session) on every class of peer key
+    for r in 0..(n_random / 4) {
+        let sk = ctx.rng.arr::<32>();
+        if r % 2 == 0 {
+            let peer = so::scalarmult_base(&ctx.rng.arr::<32>());
+            ctx.run("kx_object_honest_peer_key", Input::new().b("sk", &sk).b("peer", &peer))?;
+        } else {
+            // about half of all 32-byte strings are points on the twist
+            let peer = ctx.rng.arr::<32>();
+            ctx.run("kx_object_random_peer_key", Input::new().b("sk", &sk).b("peer", &peer))?;
+        }
+    }
+    let sk = ctx.rng.arr::<32>();
+    for p in small_u_points() {
+        ctx.run("kx_object_small_u_peer_key", Input::new().b("sk", &sk).b("peer", &p))?;
+    }
+    for p in &points {
+        ctx.run("kx_object_special_peer_key", Input::new().b("sk", &sk).b("peer", p))?;
+    }
+    for p in &near {
+        ctx.run("kx_object_near_special_peer_key", Input::new().b("sk", &sk).b("peer", p))?;
     }
     Ok(())
 }
